@@ -79,6 +79,13 @@ def configs(tier):
     for mb, mk, mdt in (('flat', 3, 'int16'), ('flat', 1, 'float32'), ('npy', 1, 'float64'), ('array', 1, 'int16'),
                         ('cbin', 1, 'int16')):
         out.append({'backend': 'meta', 'meta_backend': mb, 'K': mk, 'nc': 2, 'dtype': mdt, 'item': 'meta', 'sel': None})
+    # an earlier read of another (symbolic) range on the same reader must not influence the next one
+    for backend, K in (('flat', 2), ('flat', 3), ('npy', 1), ('cbin', 1)):
+        for item in ('int', 'slice_ss', 'list2'):
+            if backend == 'cbin' and item == 'list2':
+                continue
+            out.append({'backend': backend, 'K': K, 'nc': 2, 'dtype': 'int16', 'item': item,
+                        'sel': None if item != 'slice_ss' else [1], 'prior': True})
     # the loader always passes dtype=...: on self-describing backends the reader's dtype is the array's
     out.append({'backend': 'meta', 'meta_backend': 'npy', 'K': 1, 'nc': 2, 'dtype': 'float32', 'item': 'meta',
                 'sel': None, 'dtype_kw': 'int16'})
@@ -151,9 +158,19 @@ def run_config(cfg, e):
             info = lambda ev: {'item': [kind[:-1], ev(xs)]}
             e.prefer.append(xs[-1] <= 40)
         sel = _mksel(cfg['sel'])
-        e.case_builder = lambda ev: dict(rec.case(ev), sel=cfg['sel'], dtype_kw=cfg.get('dtype_kw'), **info(ev))
+        prior = None
+        if cfg.get('prior'):
+            p0, p1 = e.int('p0'), e.int('p1')
+            e.assume(sand(p0 >= 0, p0 < p1, p1 <= n))
+            e.prefer.append(p1 - p0 <= 6)
+            prior = (p0, p1)
+        e.case_builder = lambda ev: dict(rec.case(ev), sel=cfg['sel'], dtype_kw=cfg.get('dtype_kw'),
+                                         prior=None if prior is None else [ev(p0), ev(p1)], **info(ev))
         try:
             reader = rec.make_reader(pkg, dtype_kw=cfg.get('dtype_kw'))
+            if prior is not None:
+                reader[p0:p1]
+                reader[p0]
             if kind == 'meta':
                 e.prove(reader.n_samples == n, 'n_samples')
                 e.prove(reader.shape[0] == n, 'shape[0]')
@@ -216,6 +233,9 @@ def replay(case):
                 or np.dtype(r.dtype) != concat.dtype or abs(r.duration - concat.shape[0] / RATE) > 1e-12:
             return 'metadata differ: shape %s vs %s' % (r.shape, concat.shape)
         try:
+            if case.get('prior'):
+                r[case['prior'][0]:case['prior'][1]]
+                r[case['prior'][0]]
             got = r[item] if sel is None else r[item, sel]
             if sel is not None and it[0] == 'slice' and it[1] is None and it[2] is None:
                 got = got[item]
